@@ -1319,9 +1319,18 @@ impl IQLEngine {
             }
         }
 
-        // Ensure the last IR node (the query) stays last in execution order.
+        // Ensure the query's IR node stays last in execution order.
         // The query is always the last parsed rule and must execute after all others.
-        let last_idx = n - 1;
+        // Its IR node is the one built for that rule's head, which is not necessarily
+        // the last IR node: IR nodes are ordered by first appearance of each head, and
+        // an earlier clause of the same head (or SIP intermediates inserted between two
+        // clauses of the query head) puts other nodes after it.
+        let last_idx = self
+            .program
+            .as_ref()
+            .and_then(|p| p.rules.last())
+            .and_then(|r| head_to_idx.get(r.head.relation.as_str()).copied())
+            .unwrap_or(n - 1);
         if let Some(pos) = order.iter().position(|&i| i == last_idx) {
             if pos != order.len() - 1 {
                 order.remove(pos);
